@@ -49,6 +49,7 @@ type tcpConnectionActorOptions struct {
 type tcpConnectionActor struct {
 	options        tcpConnectionActorOptions
 	conn           net.Conn
+	reader         *bufio.Reader // 每个连接唯一的带缓冲读取器：缓冲区中可能已读入后续帧的数据，不可按帧重建
 	codec          vivid.Codec
 	envelopHandler NetworkEnvelopHandler
 	advertiseAddr  string
@@ -88,7 +89,11 @@ func (c *tcpConnectionActor) onLaunch(ctx vivid.ActorContext) {
 
 func (c *tcpConnectionActor) onReadConn(ctx vivid.ActorContext) (fatal bool, err error) {
 	// 消息读取
-	reader := bufio.NewReader(c.conn)
+	// 读取器必须在帧与帧之间复用：TCP 可能把多帧合并到一次读取中，按帧新建读取器会丢弃已缓冲的后续帧
+	if c.reader == nil {
+		c.reader = bufio.NewReader(c.conn)
+	}
+	reader := c.reader
 	lengthBuf := make([]byte, 4)
 	if _, err = io.ReadFull(reader, lengthBuf); err != nil {
 		// 对等连接已关闭
